@@ -388,52 +388,79 @@ func checkC13(P *Program, r *Result, tier string) {
 	}
 	collect := func(fn *ssa.Function, sel func(v ssa.Value) bool) map[int64]*caseInfo {
 		out := map[int64]*caseInfo{}
+		// a case with several values (case SET, LIST:) is a block entered from one equality test per value
+		multi := func(b *ssa.BasicBlock) []int64 {
+			if len(b.Preds) < 2 {
+				return nil
+			}
+			var ks []int64
+			for _, p := range b.Preds {
+				iff, ok := p.Instrs[len(p.Instrs)-1].(*ssa.If)
+				if !ok || p.Succs[0] != b || p.Succs[1] == b {
+					return nil
+				}
+				bo, ok := iff.Cond.(*ssa.BinOp)
+				if !ok || bo.Op != token.EQL || !sel(bo.X) {
+					return nil
+				}
+				c, isC := constInt(bo.Y)
+				if !isC {
+					return nil
+				}
+				ks = append(ks, c)
+			}
+			return ks
+		}
 		for _, b := range fn.Blocks {
-			var k int64 = -1
+			var keys []int64
 			for _, dc := range blockConds(b, nil, 0) {
 				if bo, ok := dc.Cond.(*ssa.BinOp); ok && bo.Op == token.EQL && dc.Truth && sel(bo.X) {
 					if c, isC := constInt(bo.Y); isC {
-						k = c
+						keys = []int64{c}
 					}
 				}
 			}
-			if k < 0 {
-				continue
+			if len(keys) == 0 {
+				for x := b; x != nil && len(keys) == 0; x = x.Idom() {
+					keys = multi(x)
+				}
 			}
-			ci := out[k]
-			if ci == nil {
-				ci = &caseInfo{pos: b.Instrs[0].Pos()}
-				out[k] = ci
-			}
-			for _, in := range b.Instrs {
-				switch x := in.(type) {
-				case *ssa.Call:
-					cal := x.Common().StaticCallee()
-					if isBinaryProtocolMethod(cal) {
-						ci.calls = append(ci.calls, cal.Name())
-					} else if cal != nil && (cal == rd || cal == ln || cal == wr || cal == lns || cal == wrs) {
-						ci.recs++
-					} else if cal != nil && cal.Pkg == fn.Pkg && cal.Blocks != nil && cal != fn {
-						// an extracted helper: the recursive calls it makes count for this case
-						for _, c2 := range callsIn(cal) {
-							if g := c2.Common().StaticCallee(); g == rd || g == ln || g == wr || g == lns || g == wrs {
-								ci.recs++
+			for _, k := range keys {
+				ci := out[k]
+				if ci == nil {
+					ci = &caseInfo{pos: b.Instrs[0].Pos()}
+					out[k] = ci
+				}
+				for _, in := range b.Instrs {
+					switch x := in.(type) {
+					case *ssa.Call:
+						cal := x.Common().StaticCallee()
+						if isBinaryProtocolMethod(cal) {
+							ci.calls = append(ci.calls, cal.Name())
+						} else if cal != nil && (cal == rd || cal == ln || cal == wr || cal == lns || cal == wrs) {
+							ci.recs++
+						} else if cal != nil && cal.Pkg == fn.Pkg && cal.Blocks != nil && cal != fn {
+							// an extracted helper: the recursive calls it makes count for this case
+							for _, c2 := range callsIn(cal) {
+								if g := c2.Common().StaticCallee(); g == rd || g == ln || g == wr || g == lns || g == wrs {
+									ci.recs++
+								}
 							}
 						}
+					case *ssa.TypeAssert:
+						ci.assert = types.TypeString(x.AssertedType, func(*types.Package) string { return "" })
+					case *ssa.MakeInterface:
+						if fn == rd {
+							ci.assert = types.TypeString(x.X.Type(), func(*types.Package) string { return "" })
+						}
+					case *ssa.Store:
+						if f := recvFieldOf(fn, x.Addr); f != "" {
+							ci.stores = append(ci.stores, f)
+						}
 					}
-				case *ssa.TypeAssert:
-					ci.assert = types.TypeString(x.AssertedType, func(*types.Package) string { return "" })
-				case *ssa.MakeInterface:
-					if fn == rd {
-						ci.assert = types.TypeString(x.X.Type(), func(*types.Package) string { return "" })
+					if p := in.Pos(); p.IsValid() && !ci.pos.IsValid() {
+						ci.pos = p
 					}
-				case *ssa.Store:
-					if f := recvFieldOf(fn, x.Addr); f != "" {
-						ci.stores = append(ci.stores, f)
-					}
-				}
-				if p := in.Pos(); p.IsValid() && !ci.pos.IsValid() {
-					ci.pos = p
 				}
 			}
 		}
@@ -454,9 +481,11 @@ func checkC13(P *Program, r *Result, tier string) {
 		ks = append(ks, k)
 	}
 	sort.Slice(ks, func(i, j int) bool { return ks[i] < ks[j] })
+	// SetBegin and ListBegin are one wire layout (type byte, 32-bit count): either codec function serves both
+	alias := func(s string) string { return strings.Replace(s, "SetBegin", "ListBegin", 1) }
 	has := func(l []string, s string) bool {
 		for _, x := range l {
-			if x == s {
+			if x == s || alias(x) == alias(s) {
 				return true
 			}
 		}
